@@ -388,3 +388,13 @@ def _forget_session() -> None:
 
 def _format_config(config):""")], None, ["C11", "C20"]),
 ]
+
+
+# ---- a NEW module-level cell: accepted when a function that runs on entry empties it, reported when nothing does
+_NEW_CELL = [("def set_config(conf: dict) -> None:\n    global config\n", "_sessions_seen = []\n\n\ndef set_config(conf: dict) -> None:\n    global config\n    _sessions_seen.append(len(conf))\n")]
+SILENT += [
+    ("new-global-cell-cleared-on-entry", "jesse/config.py", _NEW_CELL + [("    config.clear()\n    config.update(copy.deepcopy(backup_config))\n", "    config.clear()\n    _sessions_seen.clear()\n    config.update(copy.deepcopy(backup_config))\n")], None, ["C11"]),
+]
+FIRING += [
+    ("new-global-cell-never-cleared", "jesse/config.py", _NEW_CELL, None, ["C11"]),
+]
